@@ -414,7 +414,12 @@ class Scheduler(object):
         t = min(timed, key=lambda t: (t.deadline, t.tid))
         if limit is not None and t.deadline > limit:
             return False
-        self._fire(t)
+        # every timer due at that same instant fires together: the threads
+        # become runnable at the same virtual time and may then interleave
+        d = t.deadline
+        for u in sorted(timed, key=lambda t: t.tid):
+            if u.deadline <= d + 1e-9:
+                self._fire(u)
         return True
 
     def advance(self, d):
